@@ -73,36 +73,45 @@ def Host.fc1 (s : Host) (i : Nat) (ids : List Nat) (j g : Nat) : Option Nat :=
     (if j = i then s.fc i (ids.getD (g - s.fcCols) 0) else none)
   else s.fc j g
 
-/-- one pass of the loop of `split_faces` (fracture `i`) -/
-def splitOne (s : Host) (i : Nat) : Except Err Host :=
+/-- result when no face is duplicated (`face_id.size == 0`): only tags change -/
+def Host.tagOnly (s : Host) (i : Nat) : Host := { s with frac := s.frac1 i, tip := s.tip1 i }
+
+/-- result of the branch `np.all(left_cell) or not np.any(left_cell)` of `update_cell_connectivity`:
+    the duplicates are removed again (`remove_faces(..., rem_cell_faces=False)`); the tags of the old
+    faces and the enlarged face_cells matrices stay -/
+def Host.boundary (s : Host) (i : Nat) : Host :=
+  let ids := s.ids i
+  { s with frac := s.frac1 i, tip := s.tip1 i, fc := s.fc1 i ids, fcCols := s.fcCols + ids.length }
+
+/-- result of the splitting branch: the faces `ids` are duplicated (new indices `nF ..`), the copies
+    inherit normal and tags, the cells flagged `left` move to the copy, the others stay -/
+def Host.split (s : Host) (i : Nat) : Host :=
   let ids := s.ids i
   let k := ids.length
-  if k = 0 then
-    -- only tags change (`face_id.size == 0`)
-    .ok { s with frac := s.frac1 i, tip := s.tip1 i }
-  else
-    let touched := s.touched i
-    let nl := (touched.filter (·.left)).length
-    if nl = touched.length ∨ nl = 0 then
-      -- `np.all(left_cell) or not np.any(left_cell)`: the duplicates are removed again
-      -- (`remove_faces(..., rem_cell_faces=False)`), tags of the old faces and face_cells stay
-      .ok { s with frac := s.frac1 i, tip := s.tip1 i, fc := s.fc1 i ids, fcCols := s.fcCols + k }
-    else if nl * 2 ≠ touched.length then .error .valueError
-    else if nl ≠ k then .error .assertionError
-    else
-      .ok { s with
-        nF := s.nF + k
-        inc := fun g =>
-          if g < s.nF then (if g ∈ ids then (s.inc g).filter (fun a => !a.left) else s.inc g)
-          else if g < s.nF + k then (s.inc (s.src ids g)).filter (·.left)
-          else s.inc g
-        frac := fun g => if s.nF ≤ g ∧ g < s.nF + k then true else s.frac1 i g
-        tip := fun g => if s.nF ≤ g ∧ g < s.nF + k then false else s.tip1 i g
-        dom := fun g => if s.nF ≤ g ∧ g < s.nF + k then s.dom (s.src ids g) else s.dom g
-        normal := fun g => if s.nF ≤ g ∧ g < s.nF + k then s.normal (s.src ids g) else s.normal g
-        fc := s.fc1 i ids
-        fcCols := s.fcCols + k
-        pairs := s.pairs ++ ids.zip ((List.range k).map (· + s.nF)) }
+  { s with
+    nF := s.nF + k
+    inc := fun g =>
+      if g < s.nF then (if g ∈ ids then (s.inc g).filter (fun a => !a.left) else s.inc g)
+      else if g < s.nF + k then (s.inc (s.src ids g)).filter (·.left)
+      else s.inc g
+    frac := fun g => if s.nF ≤ g ∧ g < s.nF + k then true else s.frac1 i g
+    tip := fun g => if s.nF ≤ g ∧ g < s.nF + k then false else s.tip1 i g
+    dom := fun g => if s.nF ≤ g ∧ g < s.nF + k then s.dom (s.src ids g) else s.dom g
+    normal := fun g => if s.nF ≤ g ∧ g < s.nF + k then s.normal (s.src ids g) else s.normal g
+    fc := s.fc1 i ids
+    fcCols := s.fcCols + k
+    pairs := s.pairs ++ ids.zip ((List.range k).map (· + s.nF)) }
+
+/-- number of `left` non-zeros among the rows `ids` (`sum(left_cell)`) -/
+def Host.nLeft (s : Host) (i : Nat) : Nat := ((s.touched i).filter (·.left)).length
+
+/-- one pass of the loop of `split_faces` (fracture `i`) -/
+def splitOne (s : Host) (i : Nat) : Except Err Host :=
+  if (s.ids i).length = 0 then .ok (s.tagOnly i)
+  else if s.nLeft i = (s.touched i).length ∨ s.nLeft i = 0 then .ok (s.boundary i)
+  else if s.nLeft i * 2 ≠ (s.touched i).length then .error .valueError   -- "Fractures must either be on boundary or completely inside domain"
+  else if s.nLeft i ≠ (s.ids i).length then .error .assertionError      -- assert data.size == face_id.size
+  else .ok (s.split i)
 
 /-- the loop of `split_faces` over the fractures `is` -/
 def splitFrom (s : Host) : List Nat → Except Err Host
@@ -114,6 +123,48 @@ def splitFrom (s : Host) : List Nat → Except Err Host
 
 /-- `split_faces(sd, face_cells)` -/
 def splitFaces (s : Host) : Except Err Host := splitFrom s (List.range s.nFr)
+
+/-! ### quantities the property talks about -/
+
+/-- `Σ_{g < n} F g` -/
+def sumTo (n : Nat) (F : Nat → Nat) : Nat :=
+  match n with
+  | 0 => 0
+  | n + 1 => sumTo n F + F n
+
+/-- number of faces of cell `c` (non-zeros of column `c` of `cell_faces`) -/
+def Host.faceCount (s : Host) (c : Nat) : Nat :=
+  sumTo s.nF (fun g => ((s.inc g).filter (fun a => a.cell = c)).length)
+
+/-- number of host faces coupled to the lower-dimensional cell `l` of fracture `i` -/
+def Host.coupledCount (s : Host) (i l : Nat) : Nat :=
+  sumTo s.nF (fun g => if s.fc i g = some l then 1 else 0)
+
+/-- outward normal of the face `g` as seen from its incident cell(s): sign · stored normal -/
+def Host.outward (s : Host) (g : Nat) : List (List Rat) :=
+  (s.inc g).map (fun a => (s.normal g).map (fun x => (a.sign : Rat) * x))
+
+/-! ### hypotheses of the theorems: what a valid input of `split_faces` looks like -/
+
+/-- Rows beyond `nF` are empty (`cell_faces` has `num_faces` rows). -/
+def Host.RowsWF (s : Host) : Prop := ∀ g, s.nF ≤ g → s.inc g = []
+
+/-- an interior face with one cell on each side of the fracture plane: exactly two non-zeros, with
+    opposite signs, exactly one of them flagged `left` -/
+def Host.Interior (s : Host) (g : Nat) : Prop :=
+  ∃ a b : Inc, (s.inc g = [a, b] ∨ s.inc g = [b, a]) ∧ a.left = false ∧ b.left = true ∧ b.sign = -a.sign
+
+/-- valid input of `split_faces`:
+    * `face_cells` matrices have one column per host face,
+    * no host face belongs to two fractures,
+    * every lower-dimensional cell has one host face (`_assemble_mdg`: one non-zero per row),
+    * a fracture face that carries no tag (not a tip / domain boundary face of the host, i.e. the
+      host does not end there) is interior with one cell on each side. -/
+structure Host.Valid (s : Host) : Prop where
+  aligned : s.fcCols = s.nF
+  disjoint : ∀ i j g, i < s.nFr → j < s.nFr → i ≠ j → g < s.nF → (s.fc i g).isSome = true → s.fc j g = none
+  inj : ∀ i g g' l, i < s.nFr → g < s.nF → g' < s.nF → s.fc i g = some l → s.fc i g' = some l → g = g'
+  interior : ∀ i g, i < s.nFr → g < s.nF → (s.fc i g).isSome = true → s.rem g = false → s.Interior g
 
 /-! ### mortar cells (`create_interfaces`, `MortarGrid.__init__`, `_init_projections`) -/
 
@@ -159,5 +210,17 @@ def createInterface (nLow : Nat) (fc : Nat → Option Nat) (cols : Nat) : Except
       let ordered := if two then evens sorted ++ odds sorted else sorted
       if sides * nLow ≠ es.length then .error .valueError   -- one-to-one check of _init_projections
       else .ok ⟨sides, ordered⟩
+
+/-- every lower-dimensional cell `l < nLow` is coupled to exactly the two host faces `g1 l < g2 l` -/
+structure TwoSided (nLow cols : Nat) (fc : Nat → Option Nat) (g1 g2 : Nat → Nat) : Prop where
+  pos : 0 < nLow
+  order : ∀ l, l < nLow → g1 l < g2 l ∧ g2 l < cols
+  spec : ∀ g l, g < cols → (fc g = some l ↔ l < nLow ∧ (g = g1 l ∨ g = g2 l))
+
+/-- every lower-dimensional cell `l < nLow` is coupled to exactly the host face `g1 l` -/
+structure OneSided (nLow cols : Nat) (fc : Nat → Option Nat) (g1 : Nat → Nat) : Prop where
+  pos : 0 < nLow
+  bound : ∀ l, l < nLow → g1 l < cols
+  spec : ∀ g l, g < cols → (fc g = some l ↔ l < nLow ∧ g = g1 l)
 
 end PorepyVerif.C25
